@@ -27,6 +27,9 @@ pub struct InstCfg {
     pub metadata: bool,
     pub hints: bool,
     pub sense_any: bool,
+    /// constraints of the form 1e-6 * x (value exactly on the feasibility tolerance at x = +-1); only for
+    /// evaluation-type properties, because the coefficient is not dyadic
+    pub tolerance_candidates: bool,
 }
 
 impl InstCfg {
@@ -52,6 +55,7 @@ impl InstCfg {
             metadata: true,
             hints: false,
             sense_any: true,
+            tolerance_candidates: false,
         }
     }
 }
@@ -166,6 +170,12 @@ pub fn gen_constraint(t: &mut Tape, id: u64, pool: &[u64], cfg: &InstCfg, ctx: &
     if cfg.allow_absent_function && t.p(12) {
         ctx.label("absent-function");
         c.function = None;
+    } else if cfg.tolerance_candidates && !pool.is_empty() && t.p(14) {
+        // a constraint whose value lands exactly on the feasibility tolerance at x = +-1
+        ctx.label("on-tolerance-candidate");
+        let id = *t.pick(pool);
+        let coef = *t.pick(&[1e-6, -1e-6, 2e-6, 1e-7, -1e-7]);
+        c.function = Some(mk::flin(mk::linear(vec![(id, coef)], 0.0)));
     } else if t.p(16) {
         ctx.label("constant-constraint");
         c.function = Some(mk::fconst(gen_coeff(t, cfg.regime, true)));
